@@ -796,16 +796,120 @@ func runC02(c *Ctx) {
 	// ---- R1 ----
 	c.floor("C02.R1", 3)
 	x.ruleAvailableOnly("C02.R1", x.bootAlloc)
-	// sub-page skip + forms
-	var succ []int
-	for _, rn := range g.Returns() {
-		if b, ok := constBool(g.Ins[rn].(*ssa.Return).Results[0]); ok && !b {
-			succ = append(succ, rn)
+	// ---- the success signal ----
+	// The visitor tells AllocFrame that a frame was found through a local
+	// variable S of AllocFrame that it captures (an error variable that is
+	// cleared, or a flag that is set). S and the test that means "found" are
+	// read off AllocFrame itself: the test that dominates every return of a
+	// frame. Everything else in R1/R2 is stated about the places where the
+	// visitor makes that test true (its success points).
+	go_ := newIG(m, x.bootAlloc, nil)
+	invalid, _ := namedConstUint(m, "mm", "InvalidFrame")
+	oom := m.lookupGlobal("mm/pmm", "errBootAllocOutOfMemory")
+	type signal struct {
+		cell   *ssa.Alloc
+		isBool bool // else: nil-ness of an error pointer
+		pos    bool // success is S == nil / S == true when pos, S != nil / S == false otherwise
+	}
+	cellOfLoad := func(v ssa.Value) *ssa.Alloc {
+		a, ok := loadAddr(strip(v))
+		if !ok {
+			return nil
+		}
+		cell, ok := cellOf(a)
+		if !ok || cell.Parent() != x.bootAlloc {
+			return nil
+		}
+		return cell
+	}
+	signalOf := func(f Fact) (signal, bool) {
+		if f.Y == nil {
+			if cell := cellOfLoad(f.X); cell != nil {
+				return signal{cell, true, f.Op == token.EQL}, true
+			}
+			return signal{}, false
+		}
+		if f.Op != token.EQL && f.Op != token.NEQ {
+			return signal{}, false
+		}
+		for _, pr := range [][2]ssa.Value{{f.X, f.Y}, {f.Y, f.X}} {
+			if cell := cellOfLoad(pr[0]); cell != nil && isNilConst(pr[1]) {
+				return signal{cell, false, f.Op == token.EQL}, true
+			}
+		}
+		return signal{}, false
+	}
+	writtenByVisitor := func(cell *ssa.Alloc) bool {
+		stores, _, _ := cellAccesses(cell)
+		for _, st := range stores {
+			if outermost(st.Parent()) == x.bootAlloc && st.Parent() != x.bootAlloc {
+				return true
+			}
+		}
+		return false
+	}
+	var sig *signal
+	outerCases := go_.ReturnCases()
+	for _, rc := range outerCases {
+		if k, ok := constUint64(rc.Vals[0]); ok && k == invalid {
+			continue
+		}
+		for _, f := range go_.CaseFacts(rc) {
+			if sg, ok := signalOf(f); ok && writtenByVisitor(sg.cell) && sig == nil {
+				sg := sg
+				sig = &sg
+			}
 		}
 	}
-	for i, rn := range succ {
+	isSucc := func(f Fact) bool {
+		sg, ok := signalOf(f)
+		return ok && sig != nil && sg == *sig
+	}
+	// success points of the visitor: stores that make the signal true. A store
+	// of a comparison (found = cursor <= end) is a conditional success point.
+	type succPoint struct {
+		n    int
+		cond ssa.Value // nil: unconditional
+	}
+	var succ []succPoint
+	var badStores []string
+	if sig != nil {
+		for n, in := range g.Ins {
+			st, ok := in.(*ssa.Store)
+			if !ok {
+				continue
+			}
+			cell, ok := cellOf(st.Addr)
+			if !ok || cell != sig.cell {
+				continue
+			}
+			switch {
+			case !sig.isBool && isNilConst(st.Val):
+				if sig.pos {
+					succ = append(succ, succPoint{n, nil})
+				}
+			case !sig.isBool && m.nonNilErrorGlobal(st.Val):
+				if !sig.pos {
+					succ = append(succ, succPoint{n, nil})
+				}
+			case sig.isBool:
+				if b, ok := constBool(st.Val); ok {
+					if b == sig.pos {
+						succ = append(succ, succPoint{n, nil})
+					}
+				} else if sig.pos {
+					succ = append(succ, succPoint{n, st.Val})
+				} else {
+					badStores = append(badStores, g.posOf(n))
+				}
+			default:
+				badStores = append(badStores, g.posOf(n))
+			}
+		}
+	}
+	for i, sp := range succ {
 		key := fmt.Sprintf("sub-page-skip %s success#%d", m.fnName(v), i)
-		ok := hasFact(g.FactsAt(rn), func(f Fact) bool {
+		ok := hasFact(g.FactsAt(sp.n), func(f Fact) bool {
 			if f.Y == nil {
 				return false
 			}
@@ -813,7 +917,7 @@ func runC02(c *Ctx) {
 			ps := polyConst(int64(x.pageSize))
 			return f.Op == token.GEQ && l.equal(polyAtom("region.Length")) && r.equal(ps) || f.Op == token.LEQ && r.equal(polyAtom("region.Length")) && l.equal(ps)
 		})
-		c.check(ok, "C02.R1", key, "success is dominated by region.Length >= PageSize", "a region shorter than one page can satisfy an allocation", g.posOf(rn))
+		c.check(ok, "C02.R1", key, "success is dominated by region.Length >= PageSize", "a region shorter than one page can satisfy an allocation", g.posOf(sp.n))
 	}
 	// region forms in the visitor
 	bad := ""
@@ -848,100 +952,172 @@ func runC02(c *Ctx) {
 
 	// ---- R2 ----
 	c.floor("C02.R2", 3)
-	// the err cell
-	var errCell *ssa.Alloc
-	for _, in := range g.Ins {
-		if st, ok := in.(*ssa.Store); ok && isNilConst(st.Val) {
-			if cell, ok := cellOf(st.Addr); ok {
-				errCell = cell
-			}
-		}
+	la := polyAtom("boot.lastAllocFrame")
+	inRange := func(op token.Token, l, r Poly) bool {
+		return op == token.LEQ && l.equal(la) && r.equal(E) || op == token.GEQ && r.equal(la) && l.equal(E) ||
+			op == token.LSS && l.equal(la) && r.equal(x.E1) || op == token.GTR && r.equal(la) && l.equal(x.E1)
 	}
 	lastStores := x.fieldStoreNodes(g, x.lastAlloc)
-	for i, rn := range succ {
+	if sig == nil {
+		c.fail("C02.R2", "success-signal "+m.fnName(x.bootAlloc), "no return of a frame is dominated by a test of a variable that the region visitor sets: a frame is returned although the visitor did not report success (out of memory is reported as a frame)", m.pos(x.bootAlloc.Pos()))
+	} else if len(badStores) > 0 {
+		c.fail("C02.R2", "success-signal "+m.fnName(x.bootAlloc), "the visitor stores a value into the success variable that is neither success nor failure", badStores...)
+	}
+	for i, sp := range succ {
 		key := fmt.Sprintf("success-in-range %s success#%d", m.fnName(v), i)
-		// after the last cursor store on the path, the test lastAllocFrame <= end must hold at the return:
-		// every path from any cursor store to this return crosses a LEQ(lastAllocFrame, E) edge
-		var leqEdges []Edge
-		for _, f := range g.AllEdgeFacts() {
-			if f.Y == nil {
-				continue
-			}
-			l, r := z.Of(f.X), z.Of(f.Y)
-			la := polyAtom("boot.lastAllocFrame")
-			if f.Op == token.LEQ && l.equal(la) && r.equal(E) || f.Op == token.GEQ && r.equal(la) && l.equal(E) ||
-				f.Op == token.LSS && l.equal(la) && r.equal(x.E1) || f.Op == token.GTR && r.equal(la) && l.equal(x.E1) {
-				leqEdges = append(leqEdges, f.Edge)
-			}
-		}
+		// after the last cursor store on the path, lastAllocFrame <= end must hold where success is recorded
 		cut := map[Edge]bool{}
-		for _, e := range leqEdges {
-			cut[e] = true
+		for _, f := range g.AllEdgeFacts() {
+			if f.Y != nil && inRange(f.Op, z.Of(f.X), z.Of(f.Y)) {
+				cut[f.Edge] = true
+			}
 		}
 		bad := ""
 		if len(lastStores) == 0 {
 			bad = "the visitor never updates the allocation cursor"
 		}
-		for _, sn := range lastStores {
-			if p := g.Path(g.Succ[sn], cut, nil, func(n int) bool { return n == rn }); p != nil {
-				bad = "after the cursor is updated the visitor can report success without re-checking lastAllocFrame <= regionEndFrame: a frame past the end of the region (or in the next, reserved, region) is handed out"
-			}
-		}
-		// success stores nil into the result cell
-		if bad == "" && errCell != nil {
-			if ok, _ := g.MustPassBefore(rn, func(n int) bool {
-				st, ok := g.Ins[n].(*ssa.Store)
-				if !ok || !isNilConst(st.Val) {
-					return false
+		if sp.cond != nil {
+			// conditional success: the stored value is the in-range test itself, evaluated after every cursor update
+			f, ok := condFact(sp.cond, true)
+			if !ok || f.Y == nil || !inRange(f.Op, z.Of(f.X), z.Of(f.Y)) {
+				bad = "success is recorded as the value of a test other than lastAllocFrame <= regionEndFrame"
+			} else if ci, isIns := sp.cond.(ssa.Instruction); isIns {
+				after := g.Reach(g.Succ[g.Idx[ci]], nil, nil)
+				for _, sn := range lastStores {
+					if after[sn] {
+						bad = "the cursor is updated after the in-range test whose value is recorded as success"
+					}
 				}
-				cell, ok := cellOf(st.Addr)
-				return ok && cell == errCell
-			}); !ok {
-				bad = "the visitor stops the scan without recording success"
+				for _, op := range ci.Operands(nil) {
+					if ld, isLd := stripConv(*op).(*ssa.UnOp); isLd && isLoadOfField(ld, x.lastAlloc) {
+						afterLd := g.Reach(g.Succ[g.Idx[ld]], nil, nil)
+						for _, sn := range lastStores {
+							if afterLd[sn] {
+								bad = "the cursor is updated after it was read for the in-range test whose value is recorded as success"
+							}
+						}
+					}
+				}
+			}
+		} else {
+			for _, sn := range lastStores {
+				if p := g.Path(g.Succ[sn], cut, nil, func(n int) bool { return n == sp.n }); p != nil {
+					bad = "after the cursor is updated the visitor can report success without re-checking lastAllocFrame <= regionEndFrame: a frame past the end of the region (or in the next, reserved, region) is handed out"
+				}
 			}
 		}
-		c.check(bad == "", "C02.R2", key, "every path from a cursor update to the success return crosses lastAllocFrame <= regionEndFrame", bad, g.posOf(rn))
+		c.check(bad == "", "C02.R2", key, "every path from a cursor update to the point where success is recorded crosses lastAllocFrame <= regionEndFrame", bad, g.posOf(sp.n))
+	}
+	// the scan stops exactly when success was recorded
+	{
+		bad := ""
+		var where []string
+		isSuccStore := func(n int) bool {
+			for _, sp := range succ {
+				if sp.n == n && sp.cond == nil {
+					return true
+				}
+			}
+			return false
+		}
+		nstop := 0
+		for _, rc := range g.ReturnCases() {
+			rv := rc.Vals[0]
+			if b, ok := constBool(rv); ok {
+				if b {
+					continue // keep scanning
+				}
+				nstop++
+				if !g.CaseMustPassBefore(rc, isSuccStore) {
+					bad = "the visitor stops the scan without recording success"
+					where = append(where, g.posOf(rc.Ret))
+				}
+				continue
+			}
+			// return !found, with found the conditional success just recorded
+			okNeg := false
+			if u, isU := rv.(*ssa.UnOp); isU && u.Op == token.NOT {
+				for _, sp := range succ {
+					if sp.cond == nil {
+						continue
+					}
+					if u.X == sp.cond {
+						okNeg = true
+					}
+					if cellOfLoadAny(u.X) == sig.cell && g.CaseMustPassBefore(rc, func(n int) bool { return n == sp.n }) {
+						okNeg = true
+					}
+				}
+			}
+			if okNeg {
+				nstop++
+			} else {
+				bad = "the visitor's result is not `stop exactly when success was recorded`"
+				where = append(where, g.posOf(rc.Ret))
+			}
+		}
+		if bad == "" && (nstop == 0 || len(succ) == 0) {
+			bad = "the visitor never stops the scan with success recorded"
+		}
+		c.check(bad == "", "C02.R2", "stop-on-success "+m.fnName(v), "the scan stops exactly where success is recorded", bad, where...)
 	}
 	// outer function
-	go_ := newIG(m, x.bootAlloc, nil)
-	invalid, _ := namedConstUint(m, "mm", "InvalidFrame")
-	oom := m.lookupGlobal("mm/pmm", "errBootAllocOutOfMemory")
-	isErrNil := func(f Fact, op token.Token) bool {
-		return isNilFact(f, op, func(v ssa.Value) bool {
-			a, ok := loadAddr(strip(v))
-			if !ok {
-				return false
-			}
-			cell, ok := cellOf(a)
-			return ok && errCell != nil && cell == errCell
-		})
-	}
-	for i, rn := range go_.Returns() {
-		ret := go_.Ins[rn].(*ssa.Return)
+	for i, rc := range outerCases {
 		key := fmt.Sprintf("outer-return %s #%d", m.fnName(x.bootAlloc), i)
-		facts := go_.FactsAt(rn)
-		if k, ok := constUint64(ret.Results[0]); ok && k == invalid {
-			c.check(isLoadOfGlobal(ret.Results[1], oom) && m.nonNilErrorGlobal(ret.Results[1]), "C02.R2", key, "(InvalidFrame, errBootAllocOutOfMemory)", "the failure return does not yield errBootAllocOutOfMemory", go_.posOf(rn))
+		facts := go_.CaseFacts(rc)
+		if k, ok := constUint64(rc.Vals[0]); ok && k == invalid {
+			okErr := isLoadOfGlobal(rc.Vals[1], oom) && m.nonNilErrorGlobal(rc.Vals[1])
+			if !okErr && sig != nil && !sig.isBool && cellOfLoadAny(rc.Vals[1]) == sig.cell {
+				// the error variable itself, which holds the out-of-memory error unless success was recorded
+				okErr = true
+				stores, _, _ := cellAccesses(sig.cell)
+				for _, st := range stores {
+					if !isNilConst(st.Val) && !isLoadOfGlobal(st.Val, oom) {
+						okErr = false
+					}
+				}
+			}
+			c.check(okErr, "C02.R2", key, "(InvalidFrame, errBootAllocOutOfMemory)", "the failure return does not yield errBootAllocOutOfMemory", go_.posOf(rc.Ret))
 			continue
 		}
-		okv := isLoadOfField(ret.Results[0], x.lastAlloc) && isNilConst(ret.Results[1]) && hasFact(facts, func(f Fact) bool { return isErrNil(f, token.EQL) })
-		c.check(okv, "C02.R2", key, "(lastAllocFrame, nil) only when the visitor reported success", "a frame is returned although the visitor did not report success (out of memory is reported as a frame)", go_.posOf(rn))
+		okErrNil := isNilConst(rc.Vals[1])
+		if !okErrNil && sig != nil && !sig.isBool && sig.pos && cellOfLoadAny(rc.Vals[1]) == sig.cell {
+			okErrNil = true // the error variable on the side where it was tested nil
+		}
+		okv := isLoadOfField(rc.Vals[0], x.lastAlloc) && okErrNil && hasFact(facts, isSucc)
+		c.check(okv, "C02.R2", key, "(lastAllocFrame, nil) only when the visitor reported success", "a frame is returned although the visitor did not report success (out of memory is reported as a frame)", go_.posOf(rc.Ret))
 	}
 	for _, sn := range x.fieldStoreNodes(go_, x.allocCount) {
-		okc := hasFact(go_.FactsAt(sn), func(f Fact) bool { return isErrNil(f, token.EQL) }) &&
+		okc := hasFact(go_.FactsAt(sn), isSucc) &&
 			z.Of(go_.Ins[sn].(*ssa.Store).Val).equal(polyAtom("boot.allocCount").add(polyConst(1), 1))
 		c.check(okc, "C02.R2", "count "+m.fnName(x.bootAlloc), "allocCount+1 exactly on the success side", "allocCount is not incremented by one exactly when an allocation succeeded (the replay would mark the wrong number of frames)", go_.posOf(sn))
 	}
-	// the error cell starts as the OOM error
-	if errCell != nil {
-		stores, _, _ := cellAccesses(errCell)
-		okInit := false
+	// the signal starts as "not found"
+	if sig != nil {
+		stores, _, _ := cellAccesses(sig.cell)
+		okInit, nInit := true, 0
 		for _, st := range stores {
-			if st.Parent() == x.bootAlloc && isLoadOfGlobal(st.Val, oom) {
-				okInit = true
+			if st.Parent() != x.bootAlloc {
+				continue
+			}
+			nInit++
+			switch {
+			case !sig.isBool && sig.pos:
+				okInit = okInit && isLoadOfGlobal(st.Val, oom)
+			case sig.isBool:
+				b, ok := constBool(st.Val)
+				okInit = okInit && ok && b != sig.pos
+			default:
+				okInit = false
 			}
 		}
-		c.check(okInit, "C02.R2", "result-init "+m.fnName(x.bootAlloc), "the result variable starts as errBootAllocOutOfMemory", "the result variable is not initialised to the out-of-memory error: exhaustion is reported as success")
+		if !sig.isBool && nInit == 0 {
+			okInit = !sig.pos // a nil error variable means "found" when success is S == nil
+		}
+		if sig.isBool && nInit == 0 {
+			okInit = sig.pos // the zero value false means "not found"
+		}
+		c.check(okInit, "C02.R2", "result-init "+m.fnName(x.bootAlloc), "the success variable starts as `not found` (errBootAllocOutOfMemory / false)", "the result variable is not initialised to the out-of-memory error: exhaustion is reported as success")
 	}
 
 	// ---- R3 ----
@@ -1074,7 +1250,6 @@ func runC02(c *Ctx) {
 
 	// ---- R4 ----
 	c.floor("C02.R4", 3)
-	la := polyAtom("boot.lastAllocFrame")
 	allowed := map[string]bool{polyAtom("boot.kernelEndFrame").add(polyConst(1), 1).String(): true, x.S.String(): true, la.add(polyConst(1), 1).String(): true}
 	kinds := map[string]bool{}
 	for i, sn := range lastStores {
@@ -1152,6 +1327,19 @@ func runC02(c *Ctx) {
 			c.fail("C02.R4", "cursor-writers "+m.fnName(fs.Fn), "lastAllocFrame is written outside the allocation visitor and the replay reset", m.pos(fs.Store.Pos()))
 		}
 	}
+}
+
+// cellOfLoadAny: v is a load of a local cell (of any function); returns it.
+func cellOfLoadAny(v ssa.Value) *ssa.Alloc {
+	a, ok := loadAddr(strip(v))
+	if !ok {
+		return nil
+	}
+	cell, ok := cellOf(a)
+	if !ok {
+		return nil
+	}
+	return cell
 }
 
 func (x *pmmx) fieldStoreNodes(g *IG, f *types.Var) []int {
